@@ -77,6 +77,24 @@ def _partial_key_miss(f, st, cache, kexpr, vexpr, node, cfg):
                             exprs.append(g.ast.test)
                     break
                 inner = inner.value
+    # locals the stored value is built from: their definitions, and the tests those definitions depend on
+    # (`d = 1.0 if x.ttc ... else 0.0` / `if x.ttc: d = 1.0 else: d = 0.0`), as long as they lie between the lookup
+    # and the store (inside the miss branch or before it in the same iteration)
+    todo = [nm for e in exprs for nm in _names(e)]
+    seen_names = set()
+    while todo:
+        nm = todo.pop()
+        if nm in seen_names or nm in roots:
+            continue
+        seen_names.add(nm)
+        for d in cfg.reaching(node, nm):
+            if d.kind == 'stmt' and isinstance(d.ast, ast.Assign) and d.loop is node.loop:
+                exprs.append(d.ast.value)
+                todo.extend(_names(d.ast.value))
+                for g in cfg.nodes:
+                    if g.kind == 'if' and g is not d and cfg.dominates(g, d) and g.loop is node.loop \
+                            and not cfg.dominates(g, node):
+                        exprs.append(g.ast.test)
     miss = set()
     for e in exprs:
         vp, vb = _attr_paths(e)
@@ -127,6 +145,7 @@ def analyse(prog, ctx_cfg) -> list:
                           and n.args and stmt_text(n.func.value) == ctext and stmt_text(n.args[0]) == ktext
                           for n in own_nodes(f.node))
             on_miss = has_get
+            hit_reach = None
             for g in cfg.nodes:
                 if on_miss or g.kind != 'if' or node is None or not cfg.dominates(g, node) or g is node:
                     continue
@@ -141,7 +160,26 @@ def analyse(prog, ctx_cfg) -> list:
                             reach |= {t.idx} | cfg.reachable_from(t, avoiding={g.idx})
                         if node.idx not in reach:
                             on_miss = True
+                            hit_reach = reach
             if not on_miss:
+                continue
+            # get-or-create of a bucket: the entry found on a hit is filled further (C[K].append(..), C[K][j] = ..):
+            # grouping by key, not a replayed answer
+            grouped = False
+            for n in own_nodes(f.node):
+                tgt = None
+                if isinstance(n, ast.Call) and isinstance(n.func, ast.Attribute) \
+                        and n.func.attr in ('append', 'extend', 'add', 'update', 'insert', 'setdefault'):
+                    tgt = n.func.value
+                elif isinstance(n, ast.Assign) and isinstance(n.targets[0], ast.Subscript):
+                    tgt = n.targets[0].value
+                if isinstance(tgt, ast.Subscript) and stmt_text(tgt.value) == ctext and stmt_text(tgt.slice) == ktext:
+                    mn = cfg.owner(n) if not isinstance(n, ast.stmt) else cfg.node_of(n)
+                    # filled on the hit path (or after the two paths join): grouping.  Filled only inside the miss
+                    # branch: still part of building the cached answer
+                    if hit_reach is None or (mn is not None and mn.idx in hit_reach):
+                        grouped = True
+            if grouped:
                 continue
             # value: a call, possibly through a local
             vexpr = val
